@@ -289,6 +289,37 @@ def lexer_payload_rules(chk, lm: LexModel, LF):
                            LF, n.lineno)
             if has_append:
                 appended = True
+    # L5: the payload of a free-text literal is consumed without looking at it
+    free_kinds = {"STRING", "COMPRESSED_NUMBER", "COMPRESSED_STRING",
+                  "CHARACTER", "CODEPAGE_NUMBER"}
+    for br in lm.branches:
+        for call in br.token_sites:
+            k = dotted(call.args[0]) or ""
+            kind = k.split(".")[-1] if k.startswith("TokenType.") else None
+            kinds = [kind] if kind else br.kinds
+            if not any(x in free_kinds for x in kinds):
+                continue
+            child = call
+            cur = getattr(call, "_parent", None)
+            while cur is not None and cur is not br.node and cur is not fn:
+                if isinstance(cur, ast.If) and not isinstance(
+                        cur, ast.While):
+                    peeks = [c for c in ast.walk(cur.test)
+                             if isinstance(c, ast.Subscript)
+                             and isinstance(c.value, ast.Name)
+                             and c.value.id == src]
+                    if peeks:
+                        chk.ob("C03.lexer-payload-not-inspected",
+                               f"lexer Token({'/'.join(kinds)}) under "
+                               f"`{ast.unparse(cur.test)[:40]}`", False,
+                               "whether the literal is built depends on the "
+                               "value of its own payload character: that "
+                               "payload becomes syntax instead of data", LF,
+                               cur.lineno,
+                               witness="0[5|⁺|_ 6] 9 splits at the payload")
+                child = cur
+                cur = getattr(cur, "_parent", None)
+    chk.ob("C03.lexer-payload-not-inspected", "all literal token sites", True)
     # L4: the back-quote branch keeps backslash + next char in the payload
     bq = [b for b in lm.branches if b.chars is not ANY and "`" in b.chars]
     if not bq:
